@@ -310,7 +310,7 @@ type c16SRVSpec struct {
 	Old c16SRVAns `json:"old"` // _matrix._tcp.<name>
 }
 
-func (a c16SRVAns) found() bool { return a.Kind == "records" && len(a.Recs) > 0 }
+func (a c16SRVAns) found() bool  { return a.Kind == "records" && len(a.Recs) > 0 }
 func (a c16SRVAns) failed() bool { return a.Kind == "servfail" }
 
 // ---------------------------------------------------------------------------------------------
